@@ -5,6 +5,6 @@ D=/tmp/try.$$
 git -C /repo worktree add -q --detach $D HEAD || exit 2
 (cd $D && git apply "$P") || { git -C /repo worktree remove --force $D; exit 2; }
 for p in "$@"; do
-  /verif/bin/dbftlint -repo $D -prop $p -tier quick -evidence $D.json -known /verif/known_findings.json | grep -E "^FINDING|^VIOL|^OK|UNDECIDED" | sed "s#$D/##g" | cut -c1-${W:-700}
+  ${BIN:-/verif/bin/dbftlint} -repo $D -prop $p -tier quick -evidence $D.json -known /verif/known_findings.json | grep -E "^FINDING|^VIOL|^OK|UNDECIDED" | sed "s#$D/##g" | cut -c1-${W:-700}
 done
 [ -n "$KEEP" ] && echo "kept $D" || { git -C /repo worktree remove --force $D; rm -f $D.json $D.violation.json; }
